@@ -281,11 +281,28 @@ def gen_breaks(rng, count):
     return v
 
 
-def gen_layout(rng, k):
-    """returns (t, tau, left_n, right_n, label) with a non-singular collocation matrix when possible"""
+def gen_scale(rng):
+    """affine map x -> off + h * x applied to knots, sites and abscissae: (class, off, h).
+    The Python layer feeds curve splines with POSIX timestamps (seconds), i.e. offsets ~1e9 and
+    spacings 1e6..1e9; end-derivative rows of the collocation matrix then scale like 1/h^m."""
+    r = rng.random()
+    if r < 0.75:
+        return "unit", 0.0, 1.0
+    if r < 0.87:
+        off = float(rng.randint(1000000000, 1900000000))
+        h = rng.choice([86400.0 * 30, 86400.0 * 365, 86400.0 * 365 * 5, float(int(10 ** rng.uniform(6, 9)))])
+        return "timestamp", off, h
+    if r < 0.93:
+        return "tiny", rng.choice([0.0, rng.uniform(-1, 1)]), 10 ** rng.uniform(-6, -3)
+    return "huge", rng.choice([0.0, 1e12, -3e11]), 10 ** rng.uniform(9, 12)
+
+
+def gen_layout(rng, k, prefer_natural=False):
+    """returns (t, tau, left_n, right_n, label) with a non-singular collocation matrix when possible
+    (unit scale; the caller maps knots and sites affinely afterwards)"""
     for _ in range(40):
         r = rng.random()
-        if r < 0.3 and k >= 3:
+        if r < (0.65 if prefer_natural else 0.3) and k >= 3:
             # natural-spline style: repeated end sites with derivative conditions of order 2 (or k-2..)
             nsite = rng.randint(max(3, k - 1), 8)
             xs = gen_breaks(rng, nsite)
@@ -300,6 +317,8 @@ def gen_layout(rng, k):
             tau = [xs[0]] + xs + [xs[-1]]
             d = 2 if k >= 3 else 1
             ln = rn = rng.choice([d, d, d, 1, min(k - 1, 3)])
+            if prefer_natural and rng.random() < 0.3:
+                ln, rn = rng.randint(1, k - 1), rng.randint(1, k - 1)
             label = "natural"
         else:
             nint = rng.choice([0, 1, 2, 2, 3, 4, 5])
@@ -323,7 +342,7 @@ def gen_layout(rng, k):
             if any(b <= a for a, b in zip(tau, tau[1:])):
                 continue
             ln = rn = 0
-            if rng.random() < 0.2:
+            if rng.random() < (0.5 if prefer_natural else 0.2):
                 ln = rng.randint(0, k - 1)
                 rn = rng.randint(0, k - 1)
             label = "interp" if ln == rn == 0 else "endderiv"
@@ -390,7 +409,7 @@ def gen_queries(rng, k, t, tau, nq):
         elif r < 0.93:
             x = rng.uniform(lo, hi)
         else:
-            x = rng.choice([lo - 1.0, hi + 0.5])
+            x = rng.choice([lo - 1.0 * (hi - lo), hi + 0.5 * (hi - lo)])
         m = rng.choice([0, 0, 0, 1, 1, 2, rng.randint(0, k)])
         a = rng.random()
         if a < 0.35:
@@ -431,14 +450,25 @@ def gen_cases(ctx):
     for q in range(nsess):
         k = 2 + q % 5 if q < 10 else rng.randint(2, 6)
         kind = ["f64", "dual", "dual2"][q % 3] if q < 30 else rng.choice(["f64", "f64", "dual", "dual2"])
-        t, tau, ln, rn, label = gen_layout(rng, k)
+        scl, off, h = gen_scale(rng)
+        t, tau, ln, rn, label = gen_layout(rng, k, prefer_natural=(scl != "unit"))
+        if scl != "unit":
+            t = [off + h * v for v in t]
+            tau = [off + h * v for v in tau]
         n = len(t) - k
-        c = {"kind": kind, "k": k, "t": t, "label": label}
+        c = {"kind": kind, "k": k, "t": t, "label": label, "scale": (scl, off, h)}
+        ctx.count("scale:" + scl)
+        if scl != "unit":
+            ctx.count("scale-endcond:%s:%d,%d" % (scl, ln, rn))
         r = rng.random()
         if r < 0.3:
-            # polynomial data of degree < k: the spline must reproduce it
+            # polynomial data of degree < k (in the normalised variable u = (x - off) / h): the spline
+            # must reproduce it; an m-th derivative row carries p^(m)(u) / h^m
             pc = [rng.choice([0.0, 1.0, -1.0, 0.5, rng.uniform(-2, 2)]) for _ in range(k)]
-            vals = [poly_eval(pc, x, (ln if j == 0 else rn if j == len(tau) - 1 else 0)) for j, x in enumerate(tau)]
+            vals = []
+            for j, x in enumerate(tau):
+                m_ = ln if j == 0 else rn if j == len(tau) - 1 else 0
+                vals.append(poly_eval(pc, (x - off) / h, m_) / h ** m_)
             c["poly"] = pc
             data = "poly"
         else:
@@ -539,8 +569,11 @@ def compare_case(ctx, ci, c, a, b, stats):
     # reported as a note, the verdict is the model/implementation comparison
     if c.get("poly") and c["variant"] == "solve" and "illposed" not in c["label"]:
         for (x, q) in zip(da[2:], c["queries"]):
+            scl, off, h = c["scale"]
+            if scl != "unit" and q[0] == "f" and q[2] != 0:
+                continue
             if q[0] == "f" and x[1][0] == "ok" and c["kind"] == "f64" and c["t"][0] <= q[1] <= c["t"][-1]:
-                want = poly_eval(c["poly"], q[1], q[2])
+                want = poly_eval(c["poly"], (q[1] - off) / h, q[2]) / h ** q[2]
                 got = b2f(x[1][1][1])
                 stats["poly_checked"] += 1
                 if not fclose(got, want, rtol=1e-6, atol=1e-6):
@@ -551,7 +584,9 @@ def run(ctx):
     ctx.rule = ("orders 2-6; knot vectors with k-fold end knots and 0-5 interior breakpoints (multiplicity 1..k-1); "
                 "data sites: Greville sites jittered inside the Schoenberg-Whitney windows (end sites on the end "
                 "knots), optional derivative rows at the ends, and the natural-spline layout (repeated end sites, "
-                "left_n = right_n = 2); collocation matrices checked non-singular by the generator (a few ill-posed "
+                "left_n = right_n = 2); about a quarter of the splines affinely mapped to POSIX-timestamp scale (offset ~1e9, "
+                "spacing 1e6..1e9 as the Python layer feeds curve splines), tiny scale (spacing 1e-6..1e-3) or huge scale "
+                "(spacing up to 1e12), those with mostly natural (2,2) and higher end conditions; collocation matrices checked non-singular by the generator (a few ill-posed "
                 "ones kept); y as f64 / Dual / Dual2 (own variable per datum, shared, mixed, none); polynomial data "
                 "of degree < k; malformed: site/value counts off by one, over-determined with and without allow_lsq, "
                 "pre-set coefficients of right and wrong length, no coefficients, bad knot vectors; queries: "
